@@ -33,42 +33,47 @@ typedef struct variant {
 	int snd[2], rcv[2]; // direction has a poll descriptor
 	int hdr[2];
 	int sub; // Y is a cooked SUB socket (subscribe/unsubscribe letter)
+	// side has a protocol-level NNG_OPT_SENDBUF/RECVBUF (cooked REQ, REP,
+	// SURVEYOR, RESPONDENT and PULL have none: the generic socket option
+	// is accepted but resizes a queue the protocol never uses, so resize
+	// letters would be no-ops there)
+	int buf[2];
 } variant;
 
 static const variant V[] = {
 	{ "req-rep", { "req", "rep" }, { nng_req0_open, nng_rep0_open }, { 1, 1 },
-	    { 1, 1 }, { H_NONE, H_NONE }, 0 },
+	    { 1, 1 }, { H_NONE, H_NONE }, 0, { 0, 0 } },
 	{ "pub-sub", { "pub", "sub" }, { nng_pub0_open, nng_sub0_open }, { 1, 0 },
-	    { 0, 1 }, { H_NONE, H_NONE }, 1 },
+	    { 0, 1 }, { H_NONE, H_NONE }, 1, { 1, 1 } },
 	{ "push-pull", { "push", "pull" }, { nng_push0_open, nng_pull0_open },
-	    { 1, 0 }, { 0, 1 }, { H_NONE, H_NONE }, 0 },
+	    { 1, 0 }, { 0, 1 }, { H_NONE, H_NONE }, 0, { 1, 0 } },
 	{ "surveyor-respondent", { "surveyor", "respondent" },
 	    { nng_surveyor0_open, nng_respondent0_open }, { 1, 1 }, { 1, 1 },
-	    { H_NONE, H_NONE }, 0 },
+	    { H_NONE, H_NONE }, 0, { 0, 0 } },
 	{ "pair0", { "pair0", "pair0" }, { nng_pair0_open, nng_pair0_open },
-	    { 1, 1 }, { 1, 1 }, { H_NONE, H_NONE }, 0 },
+	    { 1, 1 }, { 1, 1 }, { H_NONE, H_NONE }, 0, { 1, 1 } },
 	{ "pair1", { "pair1", "pair1" }, { nng_pair1_open, nng_pair1_open },
-	    { 1, 1 }, { 1, 1 }, { H_NONE, H_NONE }, 0 },
+	    { 1, 1 }, { 1, 1 }, { H_NONE, H_NONE }, 0, { 1, 1 } },
 	{ "bus", { "bus", "bus" }, { nng_bus0_open, nng_bus0_open }, { 1, 1 },
-	    { 1, 1 }, { H_NONE, H_NONE }, 0 },
+	    { 1, 1 }, { H_NONE, H_NONE }, 0, { 1, 1 } },
 	{ "xreq-xrep", { "xreq", "xrep" }, { nng_req0_open_raw, nng_rep0_open_raw },
-	    { 1, 1 }, { 1, 1 }, { H_ID, H_ROUTE }, 0 },
+	    { 1, 1 }, { 1, 1 }, { H_ID, H_ROUTE }, 0, { 1, 1 } },
 	{ "xpub-xsub", { "xpub", "xsub" }, { nng_pub0_open_raw, nng_sub0_open_raw },
-	    { 1, 0 }, { 0, 1 }, { H_NONE, H_NONE }, 0 },
+	    { 1, 0 }, { 0, 1 }, { H_NONE, H_NONE }, 0, { 1, 1 } },
 	{ "xpush-xpull", { "xpush", "xpull" },
 	    { nng_push0_open_raw, nng_pull0_open_raw }, { 1, 0 }, { 0, 1 },
-	    { H_NONE, H_NONE }, 0 },
+	    { H_NONE, H_NONE }, 0, { 1, 0 } },
 	{ "xsurveyor-xrespondent", { "xsurveyor", "xrespondent" },
 	    { nng_surveyor0_open_raw, nng_respondent0_open_raw }, { 1, 1 },
-	    { 1, 1 }, { H_ID, H_ROUTE }, 0 },
+	    { 1, 1 }, { H_ID, H_ROUTE }, 0, { 1, 1 } },
 	{ "xpair0", { "xpair0", "xpair0" },
 	    { nng_pair0_open_raw, nng_pair0_open_raw }, { 1, 1 }, { 1, 1 },
-	    { H_NONE, H_NONE }, 0 },
+	    { H_NONE, H_NONE }, 0, { 1, 1 } },
 	{ "xpair1", { "xpair1", "xpair1" },
 	    { nng_pair1_open_raw, nng_pair1_open_raw }, { 1, 1 }, { 1, 1 },
-	    { H_HOPS, H_HOPS }, 0 },
+	    { H_HOPS, H_HOPS }, 0, { 1, 1 } },
 	{ "xbus", { "xbus", "xbus" }, { nng_bus0_open_raw, nng_bus0_open_raw },
-	    { 1, 1 }, { 1, 1 }, { H_NONE, H_NONE }, 0 },
+	    { 1, 1 }, { 1, 1 }, { H_NONE, H_NONE }, 0, { 1, 1 } },
 };
 #define NV ((int) (sizeof(V) / sizeof(V[0])))
 
@@ -111,7 +116,7 @@ tolerated(const char *sig)
 	} while (0)
 
 static void
-mk_alphabet(scen *sc, const variant *v, int split_buf)
+mk_alphabet(scen *sc, const variant *v)
 {
 	sc->v   = v;
 	sc->nal = 0;
@@ -122,12 +127,7 @@ mk_alphabet(scen *sc, const variant *v, int split_buf)
 			sc->al[sc->nal++] = (letter){ L_RECV, s, 0 };
 	}
 	sc->al[sc->nal++] = (letter){ L_LINK, 0, 0 };
-	if (split_buf) {
-		for (int s = 0; s < 2; s++) {
-			sc->al[sc->nal++] = (letter){ L_BUF, s, 0 };
-			sc->al[sc->nal++] = (letter){ L_BUF, s, 2 };
-		}
-	} else {
+	if (v->buf[0] || v->buf[1]) {
 		sc->al[sc->nal++] = (letter){ L_BUF, 2, 0 };
 		sc->al[sc->nal++] = (letter){ L_BUF, 2, 2 };
 	}
@@ -380,15 +380,10 @@ run(void *arg)
 			}
 			break;
 		case L_BUF:
-			if (x->side == 2) {
-				set_buf(s[0], x->n);
-				set_buf(s[1], x->n);
-				snprintf(h, hr, "%sbuf=%d", sp, x->n);
-			} else {
-				set_buf(s[x->side], x->n);
-				snprintf(h, hr, "%sbuf%c=%d", sp, x->side ? 'Y' : 'X',
-				    x->n);
-			}
+			for (int k = 0; k < 2; k++)
+				if (v->buf[k])
+					set_buf(s[k], x->n);
+			snprintf(h, hr, "%sbuf=%d", sp, x->n);
 			break;
 		case L_SUBTOG:
 			if (subscribed) {
@@ -430,7 +425,7 @@ main(int argc, char **argv)
 	vx_init(argc, argv, "C15");
 	g_tolerate   = getenv("C15_TOLERATE");
 	int    T     = vx_is_thorough();
-	long   cap   = T ? 60000 : 2500; // executions from the initial state
+	long   cap   = T ? 50000 : 3200; // executions from the initial state
 	long   capsd = T ? 8000 : 400;   // executions per seeded state
 	int    maxd  = T ? 6 : 5;
 	double need  = T ? 90 : 6;
@@ -438,7 +433,7 @@ main(int argc, char **argv)
 	static scen SC[NV];
 	for (int i = 0; i < NV; i++) {
 		scen *sc = &SC[i];
-		mk_alphabet(sc, &V[i], T);
+		mk_alphabet(sc, &V[i]);
 		// seed 0: the initial (connected, empty) state
 		sc->npre[0]  = 0;
 		sc->depth[0] = depth_for(sc->nal, cap, maxd);
@@ -489,10 +484,9 @@ main(int argc, char **argv)
 	vx_note("alphabet",
 	    "per variant: non-blocking send/recv for every direction that has a "
 	    "poll descriptor (tagged 2-byte bodies), link (dialer close / dial "
-	    "again), buf=0 / buf=2 (RECVBUF+SENDBUF, %s; initial 1), sub/unsub \"\" "
-	    "for SUB; %s letters",
-	    T ? "separately for X and Y" : "both sockets at once",
-	    T ? "7..9" : "5..7");
+	    "again), buf=0 / buf=2 (RECVBUF+SENDBUF of every socket that has a "
+	    "protocol-level buffer; initial 1), sub/unsub \"\" for SUB; 5..7 "
+	    "letters");
 	vx_note("bounds",
 	    "%d protocol variants (7 cooked pairings + their raw forms); per "
 	    "variant all letter sequences of depth %d..%d from the freshly "
